@@ -295,6 +295,7 @@ func verifyFunction(w *World, fn *ssa.Function, unroll int) *FuncResult {
 				fr.Drift = append(fr.Drift, fmt.Sprintf("contract names loop %d but the function has %d loops", n, len(g.loops)))
 			}
 		}
+		fr.Drift = append(fr.Drift, g.anchorNotes...)
 		for _, cs := range spec.Callees {
 			if g.calleeUse[cs] == 0 {
 				fr.UnusedCallee = append(fr.UnusedCallee, cs.Name)
